@@ -304,7 +304,7 @@ func tieArg(fn string, x float64) (int, bool) {
 var fmtFacet = harness.Register(&harness.Facet[fmtCase]{
 	Name: "tofixed-toexponential-toprecision",
 	Rule: "rapid: function × double (generator of number-to-string, which includes dyadic rationals J/2^m and decimals ending in 5) × argument {0..20 resp. 1..21 (for dyadic / short doubles preferably the digit count that makes the rounding position an exact tie or the last digit), omitted, undefined, -1, -0.5, -0, 0.5, 20.5, 21, 22, 100, 2^31, 2^32+2, ±1e21, ±Infinity, NaN, numeric and junk strings, null, booleans}; oracle: 15.7.4.5-7 executed literally on the exact binary value with math/big (n as close as possible, the larger n on a tie; sign rule; NaN/Infinity; >= 1e21; RangeError conditions in the specified order); non-trivial = x is not an integer below 2^31, or the argument is not an in-range integer, or an exact tie; distinct by (function, x bits, argument)",
-	Quick: 12000, Thorough: 200000,
+	Quick: 12000, Thorough: 160000,
 	Gen: func(t *rapid.T) fmtCase {
 		fn := rapid.SampledFrom([]string{"toFixed", "toExponential", "toPrecision"}).Draw(t, "fn")
 		x, class := genDouble(t)
@@ -402,7 +402,7 @@ func checkRadix(c radixCase) harness.Outcome {
 var radixFacet = harness.Register(&harness.Facet[radixCase]{
 	Name: "tostring-radix",
 	Rule: "rapid: integer-valued double (0..2^53, any uint64, m·2^e up to the largest double, small; both signs) or NaN/±Infinity/±0 × radix {2..36, omitted, undefined, 0, 1, 37, -1, fractional, 2^32+2, ±Infinity, NaN, strings, null, booleans}; oracle: exact big-integer digits (radix 10: 9.8.1; RangeError outside 2..36 after ToInteger); for |x| > 2^53 with a radix that is not a power of two only the read-back law is required (15.7.4.2 leaves the algorithm implementation-dependent); fractions with radix ≠ 10 are kept out; non-trivial = not (integer below 2^31 with radix 10); distinct by (x bits, radix argument)",
-	Quick: 6000, Thorough: 100000,
+	Quick: 6000, Thorough: 60000,
 	Gen: func(t *rapid.T) radixCase {
 		var x float64
 		switch rapid.IntRange(0, 9).Draw(t, "xk") {
